@@ -543,17 +543,27 @@ def run_real(case, temp_parts=None):
 
 # ----------------------------------------------------------------------------- oracle
 _READBACK = {}
+READBACK_LOG = []
 
 
 def complete_problem(data_hex, counts):
     """the bytes are a complete, readable problem with the expected numbers of objects"""
     key = (data_hex, tuple(counts))
     if key not in _READBACK:
-        try:
-            pr = mp.read_problem(bytes.fromhex(data_hex).decode("latin-1"), name=f"c15_rb_{os.getpid()}.i")
-            _READBACK[key] = (len(pr.cells), len(pr.surfaces), len(pr.data_inputs)) == tuple(counts)
-        except Exception:
-            _READBACK[key] = False
+        why = None
+        for attempt in (1, 2):
+            try:
+                pr = mp.read_problem(bytes.fromhex(data_hex).decode("latin-1"),
+                                     name=f"c15_rb_{os.getpid()}_{len(_READBACK)}_{attempt}.i")
+                got = (len(pr.cells), len(pr.surfaces), len(pr.data_inputs))
+                if got == tuple(counts):
+                    why = None
+                    break
+                why = f"read back to {got} cells/surfaces/data inputs, expected {tuple(counts)}"
+            except Exception as e:
+                why = f"{type(e).__name__}: {str(e)[:300]}"
+            READBACK_LOG.append({"attempt": attempt, "why": why})
+        _READBACK[key] = why
     return _READBACK[key]
 
 
@@ -614,8 +624,9 @@ def oracle(case, obs, temp_parts=None):
         if not is_complete(after):
             out.append({"kind": "incomplete-after-success",
                         "detail": None if after is None else [after[0], unhx(after[1])[:200] if after[0] == "F" else ""]})
-        elif not complete_problem(after[1], obs["counts"]):
-            out.append({"kind": "unreadable-after-success", "detail": "montepy does not read the written file back to the same object counts"})
+        elif complete_problem(after[1], obs["counts"]) is not None:
+            out.append({"kind": "unreadable-after-success",
+                        "detail": "montepy does not read the written file back: " + complete_problem(after[1], obs["counts"])})
     # no truncated or partial file left anywhere (a failing os.remove itself cannot be cleaned up after)
     if new and "remove" not in fault_kinds:
         out.append({"kind": "leftover-temp" if obs["exc"] is not None else "leftover-after-success",
@@ -681,6 +692,23 @@ def gen_text(rng, big=False):
     return gen.render(rng, P, gen.layout_opts(rng))
 
 
+def synthetic_text(rng, n):
+    """a large but simple problem: about n objects (cells + surfaces + a few data inputs)"""
+    k = max(2, (n - 4) // 2)
+    lines = ["synthetic problem with %d cells" % k]
+    for c in range(1, k + 1):
+        m = rng.choice([0, 0, 1])
+        lines.append(("%d %s %s%d imp:n=%d" % (c, "1 -%.3f" % rng.uniform(0.5, 19) if m else "0",
+                                               rng.choice(["-", "", "+"]), c, rng.choice([0, 1, 1])))
+                     + rng.choice(["", "", " $ cell %d" % c]))
+    lines.append("")
+    for c in range(1, k + 1):
+        lines.append("%d %s %s" % (c, rng.choice(["so", "cz", "px", "py", "pz"]), gen.fmt_real(rng, positive=True, style="fixed")))
+    lines.append("")
+    lines += ["mode n", "m1 1001.70c 2 8016.70c 1", "nps 1000"]
+    return "\n".join(lines) + "\n"
+
+
 def fault_sweep(ref, rng, tier):
     """every single crash point of the problem + combinations"""
     out = [[]]
@@ -726,7 +754,12 @@ def cases_for_problem(i, seed, tier):
     """all cases of the i-th generated problem (called inside the worker: needs the reference run)"""
     rng = random.Random(f"{seed}:C15:{i}")
     big = tier == "thorough" and i % 10 == 9
-    text = MINIMAL if i == 0 else gen_text(rng, big)
+    if i == 0:
+        text = MINIMAL
+    elif tier == "thorough" and i % 50 == 49:
+        text = synthetic_text(rng, rng.choice([60, 120, 200]))
+    else:
+        text = gen_text(rng, big)
     inc = None
     if i % 4 == 3:
         inc = rng.choice(["cell", "surface", "material"])
@@ -775,6 +808,7 @@ def eval_problem(args):
     """worker: every case of one problem -> list of results"""
     i, seed, tier, wire, temp_parts = args
     warnings.simplefilter("ignore")
+    del READBACK_LOG[:]
     text, ref, cases, err = cases_for_problem(i, seed, tier)
     if err:
         return {"i": i, "error": err, "results": []}
@@ -786,7 +820,7 @@ def eval_problem(args):
                         "cmp": {"cls": obs["cls"], "nf": obs["nf"], "nw": obs["nw"], "pid": obs["pid"],
                                 "exc": obs["exc"], "exc_msg": obs["exc_msg"], "pre": obs["pre"], "post": obs["post"]}})
     nobj = ref["nf"]
-    return {"i": i, "error": None, "results": results, "nobj": nobj, "nw": ref["nw"],
+    return {"i": i, "error": None, "results": results, "nobj": nobj, "nw": ref["nw"], "readback_log": list(READBACK_LOG),
             "incomplete": cases[0].get("incomplete") if cases else None,
             "text": text, "render_problem": wire_problem(ref) if ref["bytes"] is not None else None,
             "ref_bytes": ref["bytes"].hex() if ref["bytes"] is not None else None}
@@ -951,6 +985,8 @@ def run(ctx):
         dist["write_calls_per_problem"][b] = dist["write_calls_per_problem"].get(b, 0) + 1
         dist["max_write_calls"] = max(dist["max_write_calls"], o["nw"])
         dist["incomplete_object"][str(o["incomplete"])] = dist["incomplete_object"].get(str(o["incomplete"]), 0) + 1
+        if o.get("readback_log"):
+            dist.setdefault("readback_retries", []).extend(o["readback_log"][:3])
         for r in o["results"]:
             c = r["case"]
             ctx.cov["programs"] += 1
